@@ -106,6 +106,7 @@ class Env:
         self.db = None
         self.tie_breaks = []         # internal facts the model's atomic steps rely on, found violated
         self.intruder = None         # (txn, oid) of a transaction slipped in by the finish probe
+        self.intruder_aborted = 0
         self._interpose()
         self._probe_finish()
 
@@ -292,6 +293,11 @@ class Env:
                     env.calls.append((len(env.lines), name, out))
                     env._emit(line, obs)
                     env.last_files, env.last_stray = files, stray
+                    if name == 'tpc_finish' and env.intruder is not None:
+                        # the finish probe slipped a transaction in (it holds the commit lock): abort it now,
+                        # before anything else needs the lock; the runner's next directory check judges
+                        env.abort_intruder()
+                        env.intruder_aborted += 1
                     if exc is not None:
                         raise exc
                     return res
